@@ -1216,15 +1216,54 @@ func c10RecursionExcludesTextM(c *Ctx, rule string) {
 		return
 	}
 	n := 0
-	for _, i := range allInstrs(f) {
+	// the places a nested Transformer gets its type: a store into Transformer.t in this function, or a call of a
+	// constructor of the package whose literal takes t from one of its parameters
+	type tSite struct {
+		val ssa.Value
+		blk *ssa.BasicBlock
+		pos token.Pos
+	}
+	isTStore := func(i ssa.Instruction) (*ssa.Store, bool) {
 		st, ok := i.(*ssa.Store)
 		if !ok {
-			continue
+			return nil, false
 		}
 		fa, ok := st.Addr.(*ssa.FieldAddr)
 		if !ok || fieldName(fa.X.Type(), fa.Field) != "t" || !strings.HasSuffix(types.TypeString(fa.X.Type(), nil), "transform.Transformer") {
+			return nil, false
+		}
+		return st, true
+	}
+	var sites []tSite
+	for _, i := range allInstrs(f) {
+		if st, ok := isTStore(i); ok {
+			sites = append(sites, tSite{st.Val, st.Block(), st.Pos()})
 			continue
 		}
+		call, ok := i.(*ssa.Call)
+		if !ok {
+			continue
+		}
+		ctor := staticCallee(call)
+		if ctor == nil || len(ctor.Blocks) == 0 || c.W.pkgRelOfFn(ctor) != "transform" || ctor == origin(f) {
+			continue
+		}
+		for _, j := range allInstrs(ctor) {
+			st, ok := isTStore(j)
+			if !ok {
+				continue
+			}
+			if _, fresh := st.Addr.(*ssa.FieldAddr).X.(*ssa.Alloc); !fresh {
+				continue
+			}
+			for pi, p := range ctor.Params {
+				if st.Val == ssa.Value(p) && pi < len(call.Call.Args) {
+					sites = append(sites, tSite{call.Call.Args[pi], call.Block(), call.Pos()})
+				}
+			}
+		}
+	}
+	for _, st := range sites {
 		n++
 		seen := map[ssa.Value]bool{}
 		var bad []string
@@ -1249,8 +1288,8 @@ func c10RecursionExcludesTextM(c *Ctx, rule string) {
 				bad = append(bad, canon(v))
 			}
 		}
-		walk(st.Val, st.Block(), nil)
-		c.check(len(bad) == 0, rule, relName(f)+"#nested-type#"+itoa(n), st.Pos(), "every type a nested Transformer is created for was tested (T and *T) not to implement TextUnmarshaler",
+		walk(st.val, st.blk, nil)
+		c.check(len(bad) == 0, rule, relName(f)+"#nested-type#"+itoa(n), st.pos, "every type a nested Transformer is created for was tested (T and *T) not to implement TextUnmarshaler",
 			"a nested Transformer is created for "+strings.Join(bad, ", ")+" without testing that very type against TextUnmarshaler (only the unstripped field type was tested): a slice or array of text-unmarshalable structs ([]time.Time) has its element type rebuilt as struct{} and can never be filled or restored")
 	}
 	if n == 0 {
@@ -1388,11 +1427,29 @@ func c10NestedPerField(c *Ctx, rule string) {
 		f := st.Parent()
 		c.analysed(relName(f))
 		al := allocOf(st.Val)
-		okA := al != nil
+		var made ssa.Instruction
+		if al != nil {
+			made = al
+		} else if call, ok := stripConv(st.Val).(*ssa.Call); ok && call.Parent() == f {
+			// ... or the result of a constructor that returns a struct it allocates itself
+			if ctor := staticCallee(call); ctor != nil && len(ctor.Blocks) > 0 && w.inRepo(ctor) {
+				fresh := true
+				for _, r := range returnsOf(ctor) {
+					ra, isA := retVals(r)[0].(*ssa.Alloc)
+					if !isA || !ra.Heap {
+						fresh = false
+					}
+				}
+				if fresh {
+					made = call
+				}
+			}
+		}
+		okA := made != nil
 		why := "the recorded Transformer is not a local allocation of the recording function"
 		if okA && inLoop(st) {
 			entry := loopBodyEntry(st.Block())
-			if entry == nil || !(entry == al.Block() || entry.Dominates(al.Block())) {
+			if entry == nil || !(entry == made.Block() || entry.Dominates(made.Block())) {
 				okA = false
 				why = "the Transformer recorded for each field is one object allocated outside the loop: after the loop every field refers to the type and state of the last one, and reverse translation rebuilds the others from the wrong nested type"
 			}
